@@ -229,7 +229,7 @@ class TCPPacketGenerator(Device, OutMixIn):
         # a flow without a finish time (the default) never expires
         while self.flow.finish_time is None or env.now < self.flow.finish_time:
             # all bytes in flow has been received
-            if self.flow.size and self.next_seq >= self.flow.size:
+            if self.flow.size is not None and self.next_seq >= self.flow.size:
                 return
 
             while self.next_seq >= self.send_buffer:
@@ -247,7 +247,7 @@ class TCPPacketGenerator(Device, OutMixIn):
                 if self.flow.size_dist:
                     packet_size = self.flow.size_dist()
                 else:
-                    if self.flow.size:
+                    if self.flow.size is not None:
                         packet_size = min(self.mss, self.flow.size - self.next_seq)
                     else:
                         packet_size = self.mss
